@@ -12,6 +12,11 @@ CLAIMS = {
              "Tie to the code: ~600 (quick) / ~4000 (thorough) generated (type, value) cases are serialized and deserialized by the real crate and by the extracted model; bytes (padding masked), chunking and results must agree, and the direct oracle (round trip returns the value) is evaluated on the implementation.",
         note=TRUST + "Modelled, not verified: unsafe reinterpretations (align_to, from_raw_parts, assume_init), trait dispatch, rustc layout of std types (checked by the byte-level comparison). Length corruption is outside the property.",
         tech="Coq proof by mutual induction over the type grammar (round-trip combinators) + differential correspondence check", ref="DESIGN.md section 7 C01"),
+    "C04": dict(
+        text="Theorems (Coq): for EVERY 64-bit hash function H of the byte feeds, bytes serialized as T are refused when read as U, by both deserializers and for every base address, with WrongTypeHash (or, type hashes equal, WrongAlignHash) carrying the hash found in the file -- never a value, never a panic -- as soon as H separates the type feeds or the alignment feeds (C04_cross_read_refused). The feeds (the exact bytes given to TypeHash/AlignHash) are proved to separate the listed near-misses: type name, field/variant renamed, field type, primitive types pairwise (prefix-free), copy kind, sequence kind, array length, tuple arity of a whole tuple, element/generic argument, const value, zero-copy size, repr attributes; the documented equivalents (&[T], SerIter, Vec<T>) share both feeds. Two refutation lemmas exhibit different types with equal feeds (known findings D11 tuple regrouping, D12 raw const bytes). "
+             "Tie to the code: a recording Hasher captures the exact bytes fed by TypeHash/AlignHash of every generated type (mutants included) and they are compared byte for byte with the model's feeds; the header words are checked to be xxh3-64 of those feeds; for ~1000 (quick) ordered pairs (T, near-miss mutant U), both directions, bytes of T are read as U by the real crate and by the model in both modes: every pair must be refused with the hash found in the file.",
+        note=TRUST + "That xxh3-64 separates two given different feeds cannot be proved (hypothesis H f1 <> H f2 in the theorem); it is confirmed with the real hash on every generated pair. General injectivity of the feed is false (D11, D12) and is proved only mutation by mutation. The feed of range types contains the output of stringify! inside macro_rules ('core :: ops :: Range'), i.e. depends on rustc's pretty-printer.",
+        tech="Coq proofs (case analysis on the header; prefix-freeness of the string feed; per-mutation separation lemmas; computed refutations) + differential correspondence check of feeds and cross reads", ref="DESIGN.md section 7 C04"),
     "C07": dict(
         text="Theorems (Coq): the padding formula is the least padding for every position and every power-of-two unit up to 2^64 (C07_pad_formula); in the stream of every value of every type whose units are powers of two, for every padding content, every zero-copy block starts at a multiple of its unit and every padding run equals pad_align_to(offset, unit), is non-empty and shorter than the unit (C07_blocks_aligned); units dominate native alignment and field units (range-free types); returned count = bytes written; full-copy consumes exactly the stream. "
              "Tie to the code: block offsets/units/paddings are read from serialize_with_schema of the real crate on every generated case, counts and chunk lengths from a recording writer, consumed positions from both deserializers, and compared with the model. Known finding D10 (non power-of-two unit of RangeTo over odd-sized index types) is listed in known_findings.json and proved as a refutation lemma.",
